@@ -51,6 +51,9 @@ type Config struct {
 	// Check is the oracle for one finished execution; it returns a violation
 	// description or "".
 	Check func(x *Exec) string
+	// Observe, if set, tags each complete execution; tag counts are reported
+	// (used as vacuity guards: "at least one execution delivered a message").
+	Observe func(x *Exec) []string
 	// StopAtFirst stops at the first violation.
 	StopAtFirst bool
 	// Delay selects delay bounding: every deviation from the default scheduling
@@ -91,6 +94,7 @@ type Result struct {
 	Samples          [][]string
 	NondetErrors     []string
 	Cap              string
+	Tags             map[string]int
 }
 
 // RunOnce executes body under a scheduler replaying prefix.
@@ -192,6 +196,14 @@ func Explore(t *testing.T, cfg *Config) *Result {
 				res.HorizonHits++
 			}
 			what := ""
+			if !x.Pruned && cfg.Observe != nil {
+				if res.Tags == nil {
+					res.Tags = map[string]int{}
+				}
+				for _, tg := range cfg.Observe(x) {
+					res.Tags[tg]++
+				}
+			}
 			if !x.Pruned {
 				h := fnv.New64a()
 				h.Write([]byte(x.Outcome()))
